@@ -1531,6 +1531,12 @@ func (c *Conn) readApiVersionsResponse(size int) (errorCode int16, r []ApiVersio
 	if size, err = readInt32(&c.rbuf, size, &arrSize); err != nil {
 		return
 	}
+	if arrSize < 0 || int(arrSize) > size/6 {
+		// each entry takes 6 bytes, don't size the slice from a count that
+		// the rest of the response cannot hold.
+		err = fmt.Errorf("invalid number of api versions in a response of %d bytes: %d", size, arrSize)
+		return
+	}
 	r = make([]ApiVersion, arrSize)
 	for i := 0; i < int(arrSize); i++ {
 		if size, err = readInt16(&c.rbuf, size, &r[i].ApiKey); err != nil {
